@@ -34,6 +34,8 @@ type c17Model struct {
 	codes map[string]string
 	// error stores: wrapper def name -> global state key
 	stores map[string]string
+	// when set, the kind prover records operations that raise for some kind of their input
+	kindHazards *[]string
 }
 
 func runC17(r *fw.Run, p *fw.Program) {
